@@ -143,7 +143,7 @@ class KindFlow:
     """Producer side: for every function of a parser impl, the element kinds its returned items may have;
     and the contents of every container variant."""
 
-    def __init__(self, lib, impl_prefix, elem_enum, item_ctor, container_variants, extra_struct=None):
+    def __init__(self, lib, impl_prefix, elem_enum, item_ctor, container_variants, extra_struct=None, item_marker="Item"):
         self.lib = lib
         self.prefix = impl_prefix
         self.enum = elem_enum                   # e.g. asca::parser::ParseElement
@@ -154,7 +154,7 @@ class KindFlow:
         self.content = {}                       # container -> set(kinds)
         self.named = {}                         # named sinks (struct fields / ctor args) -> kinds
         self.extra_struct = extra_struct or {}
-        self.item_marker = "Item"
+        self.item_marker = item_marker
         self.env = {p: {} for p in self.fns}
         self.solve()
 
@@ -257,7 +257,7 @@ class KindFlow:
         if k == "field":
             # a projection to a field that holds no item (x.position, x.value ...) carries no element kinds
             t = e.get("ty") or ""
-            if "Item" not in t and "Env" not in t:
+            if self.item_marker not in t and "Env" not in t:
                 return set()
             return self.eval(f, e["a"])
         if k == "index":
@@ -379,12 +379,12 @@ class TagFlow:
     """Consumer side: which containers' elements can reach each expression (by name, flow-insensitively,
     through parameters to a fixed point)."""
 
-    def __init__(self, lib, fn_filter, elem_enum, container_variants, field_tags):
+    def __init__(self, lib, fn_filter, elem_enum, container_variants, field_tags, item_marker="Item"):
         self.lib = lib
         self.enum = elem_enum
         self.containers = container_variants
         self.field_tags = field_tags          # field name -> tag (e.g. input -> Input)
-        self.item_marker = "Item"
+        self.item_marker = item_marker
         self.fns = {b.path: b for b in lib.bodies if fn_filter(b) and b.kind in ("assoc_fn", "fn") and b.hir and not b.in_test_mod()}
         self.env = {p: {} for p in self.fns}
         self.ret = {p: set() for p in self.fns}
@@ -925,7 +925,7 @@ def cell_of(b, l, depth=0):
     return None
 
 
-def pan1(ctx):
+def pan1(ctx, min_sites=100):
     r = RuleResult("PAN-1", "no RefCell of the interpreter is borrowed while a conflicting guard on it is live (intra- and interprocedural)", floor=100)
     lib = ctx.lib
     bodies = [b for b in lib.bodies if not b.in_test_mod()]
@@ -1067,8 +1067,8 @@ def pan1(ctx):
                          % (what, "mutable" if gm == "mut" else "shared", _cell_name(gc), gloc, "" if gm == "shared" else "mutably "))
     r.analysed = {"borrow_sites": sum(len(v) for v in direct.values()), "functions_with_borrows": len(direct), "guards": n_guards,
                   "summaries": {p.rsplit("::", 1)[-1]: sorted("%s:%s" % (_cell_name(c), m) for c, m in s_) for p, s_ in summ.items() if s_}}
-    if sum(len(v) for v in direct.values()) < 100:
-        raise AnchorMissing("fewer than 100 RefCell borrow sites found (%d)" % sum(len(v) for v in direct.values()))
+    if sum(len(v) for v in direct.values()) < min_sites:
+        raise AnchorMissing("fewer than %d RefCell borrow sites found (%d)" % (min_sites, sum(len(v) for v in direct.values())))
     return r
 
 
